@@ -110,6 +110,7 @@ func (e *ELet) exprString() string {
 // Contract items
 
 type Clause struct {
+	Assumed bool  // "assumes": a postcondition used at call sites but not proved against the body (listed as an assumption)
 	Kind   string // requires ensures panics_if panics_iff invariant assert
 	Reveal []string // opaque spec functions whose definition is made available (quantified) for this clause
 	Label  string
@@ -717,7 +718,7 @@ type rawLine struct {
 }
 
 var topKeywords = map[string]bool{"func": true, "spec": true, "pred": true, "lemma": true, "ifacemethod": true}
-var clauseKeywords = map[string]bool{"returnhint": true, "refines": true, "requires": true, "ensures": true, "panics_if": true, "panics_iff": true, "nopanic": true,
+var clauseKeywords = map[string]bool{"assumes": true, "returnhint": true, "refines": true, "requires": true, "ensures": true, "panics_if": true, "panics_iff": true, "nopanic": true,
 	"assigns": true, "loop": true, "trusted": true, "inline": true, "fnparam": true, "property": true, "maxpaths": true,
 	"opaque": true, "unfold": true}
 
@@ -934,6 +935,13 @@ func parseClauseInto(fs *FuncSpec, l rawLine) error {
 			return err
 		}
 		fs.ReturnHints = append(fs.ReturnHints, c)
+	case "assumes":
+		c, err := mk("ensures", body)
+		if err != nil {
+			return err
+		}
+		c.Assumed = true
+		fs.Ensures = append(fs.Ensures, c)
 	case "requires", "ensures", "panics_if", "panics_iff":
 		c, err := mk(kw, body)
 		if err != nil {
